@@ -28,7 +28,8 @@ Record cfg := { kind : qkind; cap : Z; blocking : bool; wfr : bool }.
 Definition wfr_eff (c : cfg) : bool := match kind c with Mem => wfr c | Pers => false end.
 
 (* what Offer returned *)
-Inductive result := ROk | RFull | RTooLarge | RInvalid | RCtx | RRes (e : Z).
+Inductive result := ROk | RFull | RTooLarge | RInvalid | RCtx | RRes (e : Z)
+  | RErr (k : Z).   (* persistent queue: Encoding.Marshal failed (k = 9) / the storage write failed (k = 22) *)
 
 (* program counter of a producer thread inside Offer *)
 Inductive pstate :=
@@ -195,6 +196,7 @@ Definition c_enq : Z := 0.     Definition c_full : Z := 1.   Definition c_toolar
 Definition c_invalid : Z := 3. Definition c_blocked : Z := 4. Definition c_await : Z := 5.
 Definition c_zero : Z := 6.    Definition c_closed : Z := 7. Definition c_ctx : Z := 8.
 Definition c_sigblocked : Z := 20.
+Definition c_marshal : Z := 9.   Definition c_storeerr : Z := 22.
 Definition c_stuck : Z := 21.
 
 (* one iteration of `for size+elSize > cap { ... }` executed with the mutex held *)
@@ -322,7 +324,12 @@ Inductive label :=
 | LBroadcast                    (* cond API: hasMoreSpace.Broadcast() under the mutex (not called by the queues) *)
 | LCRead (k : nat)              (* consumer k calls Read: Lock, first loop iteration (item / false / park) *)
 | LCWake (k : nat)              (* signalled consumer k re-acquires the mutex: next loop iteration *)
-| LCorrupt (id : nat).          (* storage fault: the stored copy of queued request id becomes unreadable *)
+| LCorrupt (id : nat)           (* storage fault: the stored copy of queued request id becomes unreadable *)
+| LOfferF (p : nat) (sz : Z) (k : Z).
+                                (* persistent queue: Offer of a request whose Encoding.Marshal fails (k = c_marshal) or whose
+                                   storage write fails (k = c_storeerr).  putInternal runs its capacity loop first; past it,
+                                   both error paths return the error and change nothing.  A faulty request that has to WAIT
+                                   (block_on_overflow) is not modelled: the step is refused. *)
 
 Definition lock_free (s : st) : bool := match lock s with Free => true | _ => false end.
 
@@ -407,6 +414,16 @@ Definition step (c : cfg) (s : st) (l : label) : option (st * Z) :=
         end
       else None
   | LCorrupt id => Some (set_corrupt (id :: corrupt s) s, 0)
+  | LOfferF p sz k =>
+      if lock_free s then
+        match pget p (prods s), kind c with
+        | None, Pers =>
+            if size s + sz >? cap c then
+              if blocking c then None else Some (setp p (PRet RFull) s, c_full)
+            else Some (setp p (PRet (RErr k)) s, k)
+        | _, _ => None
+        end
+      else None
   | LPick b => Some (set_pick b s, 0)
   | LObj p b => match hget p (held s) with
                 | Some b' => if Nat.eqb b' b then Some (s, 0) else None
@@ -430,6 +447,7 @@ Definition wf_label (c : cfg) (l : label) : Prop :=
   | LOffer _ sz => kind c = Pers -> 0 <= sz
   | LBroadcast => False            (* never issued by the queues *)
   | LCorrupt _ => False            (* storage faults are outside the property's theorems (Proofs8: what is proved) *)
+  | LOfferF _ _ _ => False
   | _ => True
   end.
 
@@ -440,7 +458,7 @@ Definition reachable (c : cfg) (s : st) : Prop :=
    opposed to the environment's (a new Offer, a cancellation, Shutdown) *)
 Definition internal (l : label) : bool :=
   match l with
-  | LOffer _ _ | LCancel _ | LShutdown | LPick _ | LObj _ _ | LBroadcast | LCRead _ | LCorrupt _ => false
+  | LOffer _ _ | LCancel _ | LShutdown | LPick _ | LObj _ _ | LBroadcast | LCRead _ | LCorrupt _ | LOfferF _ _ _ => false
   | _ => true
   end.
 
@@ -488,7 +506,7 @@ Definition accepted_pstate (c : cfg) (v : pstate) : Prop :=
   v = PAwait \/ v = PRet ROk \/ (exists e, v = PRet (RRes e)) \/ (v = PRet RCtx /\ wfr_eff c = true).
 
 Definition refused_result (r : result) : bool :=
-  match r with RFull | RTooLarge | RInvalid => true | _ => false end.
+  match r with RFull | RTooLarge | RInvalid | RErr _ => true | _ => false end.
 
 (* ---- round 3: shapes of the stuck quiescent states, and the termination measure ------------------------ *)
 (* somebody is still inside Offer *)
